@@ -1,6 +1,6 @@
 (* C10 - JSON encodings are valid JSON of the right shape and lose nothing. *)
 From Coq Require Import String Ascii List Bool NArith ZArith.
-Require Import PyStr PyInt Sexp Xml M_C09 M_C08 M_C10 T_C10.
+Require Import PyStr PyInt Sexp Xml M_C09 M_C08 M_C10 M_C10r T_C10 T_C10r.
 Import ListNotations.
 Open Scope char_scope.
 
@@ -30,6 +30,26 @@ Theorem C10_int64_via_float_refuted :
   = Ok (Some (lit """9007199254740992.0""")).
 Proof. exact int64_via_float_refuted. Qed.
 
+(* extension objects: TypeId, Body and the Encoding number of the body's kind *)
+Theorem C10_extension_object : forall E tid body j, nid_dom tid = true -> shape_ext tid body = Some j ->
+  json_encode E (VExtObj tid body) = Ok (Some (jprint j)).
+Proof. exact json_ext_shape. Qed.
+
+(* the property as it is stated, inside the model: a JSON reader (M_C10r.jparse: no whitespace, number literals kept as text) reads the
+   text the encoder returns as exactly the value the OPC UA JSON encoding prescribes.  texts_ok: the float and numeric-identifier texts
+   supplied from outside the model consist of number characters (evaluated on every generated case). *)
+Theorem C10_reader_reads_printer : forall j, jv_ok j = true -> jparse (jprint j) = Some j.
+Proof. exact jparse_print. Qed.
+Theorem C10_parses_as_json : forall E v j, dom10 v = true -> texts_ok v = true -> shape v = Some j ->
+  exists s, json_encode E v = Ok (Some s) /\ jparse s = Some j.
+Proof. exact parses_as_json. Qed.
+Theorem C10_variant_parses_as_json : forall E v tnum j, (tnum <> 0)%Z -> dom10 v = true -> texts_ok v = true -> shape v = Some j ->
+  exists s, json_encode_j E (JVariant (Some v) tnum) = Ok (Some s) /\ jparse s = Some (JObj [(lit "Type", JNum (decZ tnum)); (lit "Body", j)]).
+Proof. exact variant_parses_as_json. Qed.
+Theorem C10_extension_object_parses : forall E tid body j, nid_dom tid = true -> nid_ok tid = true -> shape_ext tid body = Some j ->
+  exists s, json_encode E (VExtObj tid body) = Ok (Some s) /\ jparse s = Some j.
+Proof. exact ext_parses_as_json. Qed.
+
 Print Assumptions C10_text_lossless.
 Print Assumptions C10_shape.
 Print Assumptions C10_variant.
@@ -37,3 +57,8 @@ Print Assumptions C10_int_lossless.
 Print Assumptions C10_nodeid_unescaped_refuted.
 Print Assumptions C10_list_of_strings_refuted.
 Print Assumptions C10_int64_via_float_refuted.
+Print Assumptions C10_extension_object.
+Print Assumptions C10_reader_reads_printer.
+Print Assumptions C10_parses_as_json.
+Print Assumptions C10_variant_parses_as_json.
+Print Assumptions C10_extension_object_parses.
